@@ -1,7 +1,8 @@
 (* C12 — parsing is invariant under presentation changes the RFC declares irrelevant.
    Every theorem here is about arbitrary text / arbitrary item lists: no validity assumption. *)
 From hls Require Import Base Float Lex Kinds Types Tags Line Keys Media Master.
-From hls.Proofs Require Import Build Parse C12 AttrOrder.
+From hls.Generated Require Import Tables.
+From hls.Proofs Require Import Build Parse C12 AttrOrder Lexical TagTextDateRange AttrTables AttrOrder2.
 From Coq Require Import Permutation.
 Open Scope N_scope.
 
@@ -88,6 +89,101 @@ Check C12_attr_order : forall l1 l2, Permutation l1 l2 -> NoDup (map fst l1) ->
   /\ (forall a, fold_res start_attr l1 a = fold_res start_attr l2 a)
   /\ (forall a, fold_res map_attr l1 a = fold_res map_attr l2 a).
 Print Assumptions C12_attr_order.
+
+(* ... for every one of the eight attribute-list parsers *)
+Theorem C12_attr_order_all : forall l1 l2, Permutation l1 l2 -> NoDup (map fst l1) ->
+  (forall a, fold_res xm_attr l1 a = fold_res xm_attr l2 a)
+  /\ (forall a, fold_res key_attr l1 a = fold_res key_attr l2 a)
+  /\ (forall a, fold_res sd_attr l1 a = fold_res sd_attr l2 a)
+  /\ (forall a, fold_res si_attr l1 a = fold_res si_attr l2 a)
+  /\ (forall a, fold_res dr_attr l1 a = fold_res dr_attr l2 a).
+Proof.
+  intros l1 l2 HP Hnd. repeat split; intros a;
+    [apply media_attr_order | apply key_attr_order | apply stream_data_attr_order | apply variant_attr_order
+     | apply daterange_attr_order]; assumption.
+Qed.
+Check C12_attr_order_all : forall l1 l2, Permutation l1 l2 -> NoDup (map fst l1) ->
+  (forall a, fold_res xm_attr l1 a = fold_res xm_attr l2 a)
+  /\ (forall a, fold_res key_attr l1 a = fold_res key_attr l2 a)
+  /\ (forall a, fold_res sd_attr l1 a = fold_res sd_attr l2 a)
+  /\ (forall a, fold_res si_attr l1 a = fold_res si_attr l2 a)
+  /\ (forall a, fold_res dr_attr l1 a = fold_res dr_attr l2 a).
+Print Assumptions C12_attr_order_all.
+
+(* any surface syntax of an attribute list: the attributes in any order, any white space around names, `=`,
+   values and commas (`entry_ok`: the rendered entries of C01_tokenizer), additional attributes whose names the
+   parser does not match (names from the regenerated attribute tables) — the accumulator after the fold is the
+   one the canonical list gives, for each of the eight parsers *)
+Theorem C12_any_attribute_syntax :
+
+  (forall entries canon extra a, Forall entry_ok entries ->
+     Permutation (map (fun e => (e_k e, e_v e)) entries) (canon ++ extra) -> NoDup (map fst (canon ++ extra)) ->
+     (forall p, In p extra -> unknown_to "ExtXMedia" (fst p)) ->
+     fold_res xm_attr (attr_pairs (render_attrs entries)) a = bind (fold_res xm_attr canon a) (fun a' => Ok a'))
+  /\ (forall entries canon extra a, Forall entry_ok entries ->
+     Permutation (map (fun e => (e_k e, e_v e)) entries) (canon ++ extra) -> NoDup (map fst (canon ++ extra)) ->
+     (forall p, In p extra -> unknown_to "ExtXSessionData" (fst p)) ->
+     fold_res xs_attr (attr_pairs (render_attrs entries)) a = bind (fold_res xs_attr canon a) (fun a' => Ok a'))
+  /\ (forall entries canon extra a, Forall entry_ok entries ->
+     Permutation (map (fun e => (e_k e, e_v e)) entries) (canon ++ extra) -> NoDup (map fst (canon ++ extra)) ->
+     (forall p, In p extra -> unknown_to "DecryptionKey" (fst p)) ->
+     fold_res key_attr (attr_pairs (render_attrs entries)) a = bind (fold_res key_attr canon a) (fun a' => Ok a'))
+  /\ (forall entries canon extra a, Forall entry_ok entries ->
+     Permutation (map (fun e => (e_k e, e_v e)) entries) (canon ++ extra) -> NoDup (map fst (canon ++ extra)) ->
+     (forall p, In p extra -> unknown_to "StreamData" (fst p)) ->
+     fold_res sd_attr (attr_pairs (render_attrs entries)) a = bind (fold_res sd_attr canon a) (fun a' => Ok a'))
+  /\ (forall entries canon extra a, Forall entry_ok entries ->
+     Permutation (map (fun e => (e_k e, e_v e)) entries) (canon ++ extra) -> NoDup (map fst (canon ++ extra)) ->
+     (forall p, In p extra -> unknown_to "VariantStream" (fst p)) ->
+     fold_res si_attr (attr_pairs (render_attrs entries)) a = bind (fold_res si_attr canon a) (fun a' => Ok a'))
+  /\ (forall entries canon extra a, Forall entry_ok entries ->
+     Permutation (map (fun e => (e_k e, e_v e)) entries) (canon ++ extra) -> NoDup (map fst (canon ++ extra)) ->
+     (forall p, In p extra -> unknown_to "ExtXStart" (fst p)) ->
+     fold_res start_attr (attr_pairs (render_attrs entries)) a = bind (fold_res start_attr canon a) (fun a' => Ok a'))
+  /\ (forall entries canon extra a, Forall entry_ok entries ->
+     Permutation (map (fun e => (e_k e, e_v e)) entries) (canon ++ extra) -> NoDup (map fst (canon ++ extra)) ->
+     (forall p, In p extra -> unknown_to "ExtXMap" (fst p)) ->
+     fold_res map_attr (attr_pairs (render_attrs entries)) a = bind (fold_res map_attr canon a) (fun a' => Ok a'))
+  /\ (forall entries canon extra a, Forall entry_ok entries ->
+     Permutation (map (fun e => (e_k e, e_v e)) entries) (canon ++ extra) -> NoDup (map fst (canon ++ extra)) ->
+     (forall p, In p extra -> unknown_to "ExtXDateRange" (fst p) /\ starts_with s_Xdash (fst p) = false) ->
+     fold_res dr_attr (attr_pairs (render_attrs entries)) a = bind (fold_res dr_attr canon a) (fun a' => Ok a')).
+Proof. exact styled_all. Qed.
+Check C12_any_attribute_syntax :
+
+  (forall entries canon extra a, Forall entry_ok entries ->
+     Permutation (map (fun e => (e_k e, e_v e)) entries) (canon ++ extra) -> NoDup (map fst (canon ++ extra)) ->
+     (forall p, In p extra -> unknown_to "ExtXMedia" (fst p)) ->
+     fold_res xm_attr (attr_pairs (render_attrs entries)) a = bind (fold_res xm_attr canon a) (fun a' => Ok a'))
+  /\ (forall entries canon extra a, Forall entry_ok entries ->
+     Permutation (map (fun e => (e_k e, e_v e)) entries) (canon ++ extra) -> NoDup (map fst (canon ++ extra)) ->
+     (forall p, In p extra -> unknown_to "ExtXSessionData" (fst p)) ->
+     fold_res xs_attr (attr_pairs (render_attrs entries)) a = bind (fold_res xs_attr canon a) (fun a' => Ok a'))
+  /\ (forall entries canon extra a, Forall entry_ok entries ->
+     Permutation (map (fun e => (e_k e, e_v e)) entries) (canon ++ extra) -> NoDup (map fst (canon ++ extra)) ->
+     (forall p, In p extra -> unknown_to "DecryptionKey" (fst p)) ->
+     fold_res key_attr (attr_pairs (render_attrs entries)) a = bind (fold_res key_attr canon a) (fun a' => Ok a'))
+  /\ (forall entries canon extra a, Forall entry_ok entries ->
+     Permutation (map (fun e => (e_k e, e_v e)) entries) (canon ++ extra) -> NoDup (map fst (canon ++ extra)) ->
+     (forall p, In p extra -> unknown_to "StreamData" (fst p)) ->
+     fold_res sd_attr (attr_pairs (render_attrs entries)) a = bind (fold_res sd_attr canon a) (fun a' => Ok a'))
+  /\ (forall entries canon extra a, Forall entry_ok entries ->
+     Permutation (map (fun e => (e_k e, e_v e)) entries) (canon ++ extra) -> NoDup (map fst (canon ++ extra)) ->
+     (forall p, In p extra -> unknown_to "VariantStream" (fst p)) ->
+     fold_res si_attr (attr_pairs (render_attrs entries)) a = bind (fold_res si_attr canon a) (fun a' => Ok a'))
+  /\ (forall entries canon extra a, Forall entry_ok entries ->
+     Permutation (map (fun e => (e_k e, e_v e)) entries) (canon ++ extra) -> NoDup (map fst (canon ++ extra)) ->
+     (forall p, In p extra -> unknown_to "ExtXStart" (fst p)) ->
+     fold_res start_attr (attr_pairs (render_attrs entries)) a = bind (fold_res start_attr canon a) (fun a' => Ok a'))
+  /\ (forall entries canon extra a, Forall entry_ok entries ->
+     Permutation (map (fun e => (e_k e, e_v e)) entries) (canon ++ extra) -> NoDup (map fst (canon ++ extra)) ->
+     (forall p, In p extra -> unknown_to "ExtXMap" (fst p)) ->
+     fold_res map_attr (attr_pairs (render_attrs entries)) a = bind (fold_res map_attr canon a) (fun a' => Ok a'))
+  /\ (forall entries canon extra a, Forall entry_ok entries ->
+     Permutation (map (fun e => (e_k e, e_v e)) entries) (canon ++ extra) -> NoDup (map fst (canon ++ extra)) ->
+     (forall p, In p extra -> unknown_to "ExtXDateRange" (fst p) /\ starts_with s_Xdash (fst p) = false) ->
+     fold_res dr_attr (attr_pairs (render_attrs entries)) a = bind (fold_res dr_attr canon a) (fun a' => Ok a')).
+Print Assumptions C12_any_attribute_syntax.
 
 (* white space around attribute names and values is trimmed by the tokenizer (C01_tokenizer) *)
 
